@@ -98,6 +98,7 @@ func init() {
 			out = append(out, Instance{Scenario: "c10_simple", Params: mustJSON(struct{}{}), Bound: 0})
 			out = append(out, Instance{Scenario: "c10_register", Params: mustJSON(struct{}{}), Bound: 0, Note: "real RPC client / handler code over an in-memory transport: registration, death, restart under the same name before / after the leader's next round"})
 			out = append(out, Instance{Scenario: "c10_first", Params: mustJSON(FirstParams{Inject: true}), Bound: 0, Note: "first numbering injected at every scheduling point of the first GetInfo()"})
+			out = append(out, Instance{Scenario: "c10_first", Params: mustJSON(FirstParams{Two: true}), Bound: 0, Note: "two numberings announced before the first GetInfo(): the latest one is returned"})
 			out = append(out, Instance{Scenario: "c10_first", Params: mustJSON(FirstParams{}), Bound: 3, Note: "first numbering vs first GetInfo(), every schedule with <=3 deviations"})
 			return out
 		},
@@ -281,12 +282,21 @@ func sdMain() {
 	resetGlobals()
 	o := EnvOpts{RebalanceDelay: time.Second}
 	o.defaults()
+	var all []*sdNode
+	var hist []string
 	mk := func(name string) *sdNode {
 		cfg := o.config()
 		n := &sdNode{name: name}
+		all = append(all, n)
 		bus := EventBus.New()
 		_ = bus.Subscribe(helpers.MembershipChangedBusEventName, func(m *membership.Model) {
 			n.events = append(n.events, [2]int{m.MemberNumber, m.TotalMembers})
+			// at every instant: members that agree on the group size hold pairwise distinct numbers
+			for _, x := range all {
+				if x != n && len(x.events) > 0 && lastOf(x.events) == lastOf(n.events) {
+					vrt.Failf("after %v: %s and %s both hold %d/%d (two owners for one chunk, another chunk has none)", hist, x.name, n.name, m.MemberNumber, m.TotalMembers)
+				}
+			}
 		})
 		n.sd = servicediscovery.NewServiceDiscovery(cfg, bus)
 		n.sd.StartHeartbeat()
@@ -298,7 +308,6 @@ func sdMain() {
 	nf := 1 + vrt.Choose(4, true, "followers")
 	var followers []*sdNode
 	var rpcs []*fakeRPC
-	var hist []string
 	pingDown := map[string]bool{}
 	rebalFailOnce := map[string]bool{}
 	addFollower := func(f *sdNode, joinTime int64) {
@@ -367,8 +376,12 @@ func sdMain() {
 	}
 	check("after registration")
 	// one disturbance
-	switch vrt.Choose(5, true, "disturbance") {
+	switch vrt.Choose(6, true, "disturbance") {
 	case 0:
+	case 5: // steady state: one Rebalance RPC to one follower fails, nothing else changes
+		v := followers[vrt.Choose(nf, true, "victim")]
+		rebalFailOnce[v.name] = true
+		hist = append(hist, "rebalance-rpc-fails-once-in-steady-state("+v.name+")")
 	case 1: // a follower's pings start failing: it is dropped
 		v := followers[vrt.Choose(nf, true, "victim")]
 		pingDown[v.name] = true
@@ -525,6 +538,7 @@ func init() {
 // the announced numbering within bounded time, and a later renumbering must replace it.
 type FirstParams struct {
 	Inject bool `json:"inject"`
+	Two    bool `json:"two"` // two announcements before the first GetInfo()
 }
 
 func init() {
@@ -556,6 +570,28 @@ func firstInfoMain(p FirstParams) {
 		bus.WaitAsync()
 	}
 	k := -1
+	if p.Two {
+		// two numberings are announced before anybody asked: the first caller gets the LATEST one
+		announce()
+		latest := &membership.Model{MemberNumber: 1, TotalMembers: 2}
+		bus.Publish(helpers.MembershipChangedBusEventName, latest)
+		bus.WaitAsync()
+		vrt.GoNamed("waiter", func() {
+			got = m.GetInfo()
+			returned = true
+		})
+		vrt.Sleep(time.Minute)
+		vrt.Quiesce()
+		if !returned {
+			vrt.Failf("%s membership: two numberings (2/3, then 1/2) were announced before the first GetInfo(), which never returned; blocked: %v", name, vrt.BlockedThreads())
+		} else if got.MemberNumber != 1 || got.TotalMembers != 2 {
+			vrt.Failf("%s membership: 2/3 and then 1/2 were announced before the first GetInfo(); it returned %d/%d (a superseded numbering)", name, got.MemberNumber, got.TotalMembers)
+		} else if again := m.GetInfo(); again.MemberNumber != 1 || again.TotalMembers != 2 {
+			vrt.Failf("%s membership: a second GetInfo() returned %d/%d, the latest numbering is 1/2", name, again.MemberNumber, again.TotalMembers)
+		}
+		vrt.SetOutcome(name + " two-before-first")
+		return
+	}
 	if p.Inject {
 		k = vrt.Choose(8, true, "announce-at")
 		vrt.InjectAtomic("waiter", k, announce)
